@@ -1,6 +1,14 @@
+import TinysetModel.Proofs.PropsAux
+import TinysetModel.Proofs.Demo
 import TinysetModel.Proofs.Consts
-/-! C05 — see /verif/properties.jsonl.  Theorems for this property are being added; the ones
-below are the obligations checked so far. -/
+/-! C05 — collect()/extend() build exactly the set of distinct items of any sequence.
+
+Model functions: `fromIter` is `SetU64::from_iter` / `SetU32::from_iter` (sort + dedup, inline attempt,
+pre-sized dense / table, then an insert loop); `extend` is every `Extend` impl and is also
+`Set64::from_iter` / `SetUsize::from_iter` (these ARE the insert loop started from `new()`, so they are
+covered by the `extend` theorems with `r = .empty`: `collect_loop`).
+`xs.eraseDups.length` is the number of distinct items of `xs` (`distinct_items` below says what `eraseDups` is).
+All statements are "whenever the model returns", for every RNG oracle `g`, every state `d` and every fuel. -/
 namespace C05
 open SC
 
@@ -8,4 +16,117 @@ open SC
 theorem consts_match : TinyC.codec64.splits = Gen.bitsplits64 ∧ TinyC.codec32.splits = Gen.bitsplits32 :=
   ⟨bitsplits64_match, bitsplits32_match⟩
 
+/-- what "the distinct items of `xs`" means: `eraseDups` keeps exactly the values occurring in `xs`, once each -/
+theorem distinct_items (xs : List Nat) : xs.eraseDups.Nodup ∧ ∀ x, x ∈ xs.eraseDups ↔ x ∈ xs :=
+  ⟨nodup_eraseDups xs, fun _ => List.mem_eraseDups⟩
+
+section generic
+variable {c : Cfg} {D : Type}
+
+/-- `collect()` of any sequence (any order, any duplicates) of `W`-bit values: the result is well formed, its
+members are exactly the items, iteration yields no value twice, and `len` is the number of distinct items -/
+theorem collect_spec (ok : CfgOK c) (g : Rng D) (fuel : Nat) {xs : List Nat} (hx : ∀ x ∈ xs, x < 2 ^ c.W)
+    {d d' : D} {r : Rp} (h : fromIter c g fuel xs d = .ok (r, d')) :
+    WF c r ∧ (∀ x, x ∈ elems c r ↔ x ∈ xs) ∧ (elems c r).Nodup ∧ len r = xs.eraseDups.length :=
+  fromIter_spec ok g fuel hx h
+
+/-- `extend()`: the union of the previous contents with the items, no duplicates, `len` = number of distinct
+values among old members and items -/
+theorem extend_spec (ok : CfgOK c) (g : Rng D) (fuel : Nat) {r r' : Rp} {xs : List Nat} {d d' : D}
+    (wf : WF c r) (hx : ∀ x ∈ xs, x < 2 ^ c.W) (h : extend c g fuel r xs d = .ok (r', d')) :
+    WF c r' ∧ (∀ x, x ∈ elems c r' ↔ (x ∈ elems c r ∨ x ∈ xs)) ∧ (elems c r').Nodup ∧
+      len r' = (elems c r ++ xs).eraseDups.length :=
+  SC.extend_spec ok g fuel wf hx h
+
+/-- the insert loop from `new()` — `Set64::from_iter`, `SetUsize::from_iter` — has the same specification as `collect_spec` -/
+theorem collect_loop (ok : CfgOK c) (g : Rng D) (fuel : Nat) {xs : List Nat} (hx : ∀ x ∈ xs, x < 2 ^ c.W)
+    {d d' : D} {r : Rp} (h : extend c g fuel .empty xs d = .ok (r, d')) :
+    WF c r ∧ (∀ x, x ∈ elems c r ↔ x ∈ xs) ∧ (elems c r).Nodup ∧ len r = xs.eraseDups.length :=
+  collect_loop_spec ok g fuel hx h
+
+/-- `extend` is literally the loop `for x in xs { self.insert(x) }` -/
+theorem extend_is_insert_loop (c : Cfg) (g : Rng D) (fuel : Nat) (r : Rp) (xs : List Nat) :
+    extend c g fuel r xs = insertAll (insert c g fuel) r xs := rfl
+
+/-- collecting is indistinguishable from inserting the items one at a time into a new set (also when the two
+executions see different RNG states): both results are well formed, have the same members (those of `xs`),
+the same `len`, and compare `==` -/
+theorem collect_indistinguishable (ok : CfgOK c) (g : Rng D) (fuel : Nat) {xs : List Nat}
+    (hx : ∀ x ∈ xs, x < 2 ^ c.W) {d₁ d₁' d₂ d₂' : D} {r₁ r₂ : Rp}
+    (h1 : fromIter c g fuel xs d₁ = .ok (r₁, d₁')) (h2 : extend c g fuel .empty xs d₂ = .ok (r₂, d₂')) :
+    WF c r₁ ∧ WF c r₂ ∧ (∀ x, x ∈ elems c r₁ ↔ x ∈ elems c r₂) ∧ (∀ x, x ∈ elems c r₁ ↔ x ∈ xs) ∧
+      len r₁ = len r₂ ∧ eqSet c r₁ r₂ = true :=
+  collect_eq_insert_loop ok (coreOK ok g fuel) hx h1 h2
+
+end generic
+
+/-! ### the two instances: `cfg64` = SetU64 / Set64<T> / SetUsize, `cfg32` = SetU32 -/
+
+theorem collect_spec_u64 {D : Type} (g : Rng D) (fuel : Nat) {xs : List Nat} (hx : ∀ x ∈ xs, x < 2 ^ 64)
+    {d d' : D} {r : Rp} (h : fromIter cfg64 g fuel xs d = .ok (r, d')) :
+    WF cfg64 r ∧ (∀ x, x ∈ elems cfg64 r ↔ x ∈ xs) ∧ (elems cfg64 r).Nodup ∧ len r = xs.eraseDups.length :=
+  fromIter_spec cfg64_ok g fuel hx h
+theorem collect_spec_u32 {D : Type} (g : Rng D) (fuel : Nat) {xs : List Nat} (hx : ∀ x ∈ xs, x < 2 ^ 32)
+    {d d' : D} {r : Rp} (h : fromIter cfg32 g fuel xs d = .ok (r, d')) :
+    WF cfg32 r ∧ (∀ x, x ∈ elems cfg32 r ↔ x ∈ xs) ∧ (elems cfg32 r).Nodup ∧ len r = xs.eraseDups.length :=
+  fromIter_spec cfg32_ok g fuel hx h
+
+theorem extend_spec_u64 {D : Type} (g : Rng D) (fuel : Nat) {r r' : Rp} {xs : List Nat} {d d' : D}
+    (wf : WF cfg64 r) (hx : ∀ x ∈ xs, x < 2 ^ 64) (h : extend cfg64 g fuel r xs d = .ok (r', d')) :
+    WF cfg64 r' ∧ (∀ x, x ∈ elems cfg64 r' ↔ (x ∈ elems cfg64 r ∨ x ∈ xs)) ∧ (elems cfg64 r').Nodup ∧
+      len r' = (elems cfg64 r ++ xs).eraseDups.length :=
+  SC.extend_spec cfg64_ok g fuel wf hx h
+theorem extend_spec_u32 {D : Type} (g : Rng D) (fuel : Nat) {r r' : Rp} {xs : List Nat} {d d' : D}
+    (wf : WF cfg32 r) (hx : ∀ x ∈ xs, x < 2 ^ 32) (h : extend cfg32 g fuel r xs d = .ok (r', d')) :
+    WF cfg32 r' ∧ (∀ x, x ∈ elems cfg32 r' ↔ (x ∈ elems cfg32 r ∨ x ∈ xs)) ∧ (elems cfg32 r').Nodup ∧
+      len r' = (elems cfg32 r ++ xs).eraseDups.length :=
+  SC.extend_spec cfg32_ok g fuel wf hx h
+
+/-- `Set64<T>::from_iter`, `SetUsize::from_iter` (the insert loop over the encoded items) -/
+theorem collect_loop_u64 {D : Type} (g : Rng D) (fuel : Nat) {xs : List Nat} (hx : ∀ x ∈ xs, x < 2 ^ 64)
+    {d d' : D} {r : Rp} (h : extend cfg64 g fuel .empty xs d = .ok (r, d')) :
+    WF cfg64 r ∧ (∀ x, x ∈ elems cfg64 r ↔ x ∈ xs) ∧ (elems cfg64 r).Nodup ∧ len r = xs.eraseDups.length :=
+  collect_loop_spec cfg64_ok g fuel hx h
+theorem collect_loop_u32 {D : Type} (g : Rng D) (fuel : Nat) {xs : List Nat} (hx : ∀ x ∈ xs, x < 2 ^ 32)
+    {d d' : D} {r : Rp} (h : extend cfg32 g fuel .empty xs d = .ok (r, d')) :
+    WF cfg32 r ∧ (∀ x, x ∈ elems cfg32 r ↔ x ∈ xs) ∧ (elems cfg32 r).Nodup ∧ len r = xs.eraseDups.length :=
+  collect_loop_spec cfg32_ok g fuel hx h
+
+theorem collect_indistinguishable_u64 {D : Type} (g : Rng D) (fuel : Nat) {xs : List Nat}
+    (hx : ∀ x ∈ xs, x < 2 ^ 64) {d₁ d₁' d₂ d₂' : D} {r₁ r₂ : Rp}
+    (h1 : fromIter cfg64 g fuel xs d₁ = .ok (r₁, d₁')) (h2 : extend cfg64 g fuel .empty xs d₂ = .ok (r₂, d₂')) :
+    WF cfg64 r₁ ∧ WF cfg64 r₂ ∧ (∀ x, x ∈ elems cfg64 r₁ ↔ x ∈ elems cfg64 r₂) ∧ (∀ x, x ∈ elems cfg64 r₁ ↔ x ∈ xs) ∧
+      len r₁ = len r₂ ∧ eqSet cfg64 r₁ r₂ = true :=
+  collect_eq_insert_loop cfg64_ok (coreOK cfg64_ok g fuel) hx h1 h2
+theorem collect_indistinguishable_u32 {D : Type} (g : Rng D) (fuel : Nat) {xs : List Nat}
+    (hx : ∀ x ∈ xs, x < 2 ^ 32) {d₁ d₁' d₂ d₂' : D} {r₁ r₂ : Rp}
+    (h1 : fromIter cfg32 g fuel xs d₁ = .ok (r₁, d₁')) (h2 : extend cfg32 g fuel .empty xs d₂ = .ok (r₂, d₂')) :
+    WF cfg32 r₁ ∧ WF cfg32 r₂ ∧ (∀ x, x ∈ elems cfg32 r₁ ↔ x ∈ elems cfg32 r₂) ∧ (∀ x, x ∈ elems cfg32 r₁ ↔ x ∈ xs) ∧
+      len r₁ = len r₂ ∧ eqSet cfg32 r₁ r₂ = true :=
+  collect_eq_insert_loop cfg32_ok (coreOK cfg32_ok g fuel) hx h1 h2
+
+/-! ### the hypotheses are satisfiable: unsorted inputs with a duplicate, inline and heap results -/
+
+/-- `collect` of `[5, 3, 5, 1000]` returns (an inline value), so `collect_spec_u64` applies: `len` is 3 -/
+example : len Demo.inline = [5, 3, 5, 1000].eraseDups.length :=
+  (collect_spec_u64 detRng 6 (by decide) Demo.collect_small64).2.2.2
+/-- a sequence whose collection is a pre-sized heap table (SetU64, SetU32) -/
+example : ∀ x, x ∈ elems cfg64 (.heap 5 5 13 #[40, 45056, 709490156681134096, 692861481132040, 0]) ↔
+    x ∈ [5, 3, 5, 2 ^ 40, 2 ^ 50, 77, 2 ^ 50] :=
+  (collect_spec_u64 detRng 6 (by decide) Demo.collect_big64).2.1
+example : len (.heap 5 5 1817105647 #[1073741824, 5, 77, 3, 2147483648]) = 5 :=
+  (collect_spec_u32 detRng 6 (by decide) Demo.collect_big32).2.2.2
+/-- the insert loop on `[5, 3, 5, 2^40]` returns a heap table of 3 members -/
+example : len (.heap 3 3 23 #[40, 401016175510691840, 0]) = [5, 3, 5, 2 ^ 40].eraseDups.length :=
+  (collect_loop_u64 detRng 6 (by decide) Demo.loop_small64).2.2.2
+example : WF cfg32 (.heap 3 3 1 #[7, 2147483649, 11]) := (collect_loop_u32 detRng 6 (by decide) Demo.loop_small32).1
+/-- `extend` of a non-empty heap set: the hypotheses `WF` and "returns" hold together -/
+example : extend cfg64 detRng 6 Demo.bitmap64 [1000, 7, 7] () = .ok (.heap 3 3 23 #[401016175510691840, 128, 360712192], ()) := by
+  decide +kernel
+
 end C05
+
+#print axioms C05.collect_spec
+#print axioms C05.extend_spec
+#print axioms C05.collect_loop
+#print axioms C05.collect_indistinguishable
